@@ -181,7 +181,7 @@ func ltPatternObs(pattern string) []string {
 			recv = sentAt + 1
 		case 'i':
 			obs = append(obs, fmt.Sprintf("0 0 0 %d %d 0 0 %d", sentAt, recv, recv))
-		case 'l':
+		case 'l', 'x', 'y':
 			recv = sentAt + 1
 			obs = append(obs, fmt.Sprintf("0 0 0 %d %d 0 0 %d", sentAt, recv, recv))
 		case 'g', 'd':
@@ -282,6 +282,13 @@ func ltRun(s ltScenario, scale int) ltOutcome {
 				_ = p.Send(mkFrame(0xFFFF, 0, 0, 0, 6, f.Sys(), nil))
 			case 'l':
 				_ = p.Send(life)
+			case 'x':
+				// life shown only through a frame the library REJECTS (undefined SType): still a complete inbound
+				// frame, i.e. receive activity in the sense of the suppression rules (after seeded change C19b-2)
+				_ = p.Send(mkFrame(0xFFFF, 0, 0, 0, 10, sysOf(0x56000000+uint32(out.probes)), nil))
+			case 'y':
+				// ... or an unsupported presentation type
+				_ = p.Send(mkFrame(0xFFFF, 0, 0, 1, 0, sysOf(0x57000000+uint32(out.probes)), nil))
 			case 'g':
 				go func() {
 					time.Sleep(t6 + interval/2)
@@ -432,7 +439,7 @@ func ltJudge(s ltScenario, o ltOutcome, pred ltPrediction, havePred bool, scale 
 		if !strings.Contains(s.pattern, "i") && !strings.Contains(s.pattern, "g") && !strings.Contains(s.pattern, "d") && s.suppress && o.disconnected {
 			add("property", "live-link-dropped", "peer answered or showed life after every probe, yet the linktest disconnected it")
 		}
-		if s.suppress && s.k >= 2 && strings.Trim(s.pattern, "glad") == "" && o.disconnected {
+		if s.suppress && s.k >= 2 && strings.Trim(s.pattern, "gladxy") == "" && o.disconnected {
 			add("property", "live-link-dropped", "every probe timeout was preceded by life, yet the linktest disconnected (threshold >= 2)")
 		}
 		// oracle for scripts without life frames (or with suppression off, where life is irrelevant): the link is
@@ -526,13 +533,15 @@ func c19Scenarios(c *Ctx) []ltScenario {
 			ss = append(ss, ltScenario{"pattern", "gggggg", act, sup, 2})  // life between probes
 			ss = append(ss, ltScenario{"pattern", "dddddd", act, sup, 2})  // every probe answered, but later than T6
 			ss = append(ss, ltScenario{"pattern", "iaiaiia", act, sup, 2}) // intermittent
+			ss = append(ss, ltScenario{"pattern", "xxxxxx", act, sup, 2})  // alive, but every frame it sends is one the library rejects
+			ss = append(ss, ltScenario{"pattern", "yxyxyx", act, sup, 3})
 			ss = append(ss, ltScenario{"chatty", "", act, sup, 2})
 			ss = append(ss, ltScenario{"busy", "", act, sup, 3})
 		}
 	}
 	ss = append(ss, ltScenario{"pattern", "llll", false, true, 1}, ltScenario{"pattern", "aaaa", true, true, 1},
 		ltScenario{"pattern", "iilii", false, true, 3}, ltScenario{"pattern", "iigii", true, true, 3})
-	alpha := "ailg"
+	alpha := "ailgxy"
 	for i := 0; i < c.Pick(10, 120); i++ {
 		n := 2 + c.Rng.IntN(6)
 		var b strings.Builder
